@@ -413,6 +413,9 @@ func registerVerifsym(ip *Interp) {
 		}()
 		return res
 	})
+	reg("Or", func(ip *Interp, fr *frame, a []Value) Value { return ip.ctx.Or(a[0].(*sym.Term), a[1].(*sym.Term)) })
+	reg("And", func(ip *Interp, fr *frame, a []Value) Value { return ip.ctx.And(a[0].(*sym.Term), a[1].(*sym.Term)) })
+	reg("Not", func(ip *Interp, fr *frame, a []Value) Value { return ip.ctx.Not(a[0].(*sym.Term)) })
 	reg("Symbolic", func(ip *Interp, fr *frame, a []Value) Value { return ip.ctx.True })
 }
 
